@@ -38,7 +38,7 @@ Print Assumptions C12_idempotent.
 (* prewrite over the transaction's own lock, per key (any state): whatever an accepted prewrite left on a
    key, or if the key already held the own prewrite lock, prewriting it again - any mutation of that
    transaction - succeeds and writes nothing. (Partial: the lifting to whole multi-mutation requests,
-   including the Insert / CheckNotExists pre-check of repaired defect b69a3a6, is checked on the code by
+   including the Insert / CheckNotExists pre-check of repaired defect a799b8b, is checked on the code by
    the "idempotent" oracle only.) *)
 Theorem C12_idempotent_prewrite_partial : forall ks m m' s p ttl mc ao,
   (forall x, prewrite_key ks m s p ttl mc ao = KOk (Some x) -> prewrite_key x m' s p ttl mc ao = KOk None) /\
